@@ -1,10 +1,13 @@
 pub mod c01;
 pub mod c02;
 pub mod c03;
+pub mod c14;
+pub mod c15;
+pub mod c17;
 pub mod common;
 
 use crate::engine::Check;
 
 pub fn all() -> Vec<Box<dyn Check>> {
-    vec![Box::new(c01::C01), Box::new(c02::C02), Box::new(c03::C03)]
+    vec![Box::new(c01::C01), Box::new(c02::C02), Box::new(c03::C03), Box::new(c14::C14), Box::new(c15::C15), Box::new(c17::C17)]
 }
